@@ -318,3 +318,50 @@ Section Interleave.
       + rewrite (items_schedule_independent p parts es tr s r c) by assumption. now rewrite Hm.
   Qed.
 End Interleave.
+
+(** * the OpenMP parts tile the outcome list (no 32-bit wrap when len + chunk <= 2^32) *)
+Lemma firstn_add {A} a b (l : list A) : firstn (a + b) l = firstn a l ++ firstn b (skipn a l).
+Proof.
+  revert l. induction a as [|a IH]; intros l; [reflexivity|].
+  destruct l as [|x r]; cbn; [now rewrite firstn_nil|]. now rewrite IH.
+Qed.
+
+Lemma concat_blocks {A} n m (l : list A) :
+  concat (map (fun k => firstn n (skipn (k * n) l)) (seq 0 m)) = firstn (m * n) l.
+Proof.
+  induction m as [|m IH]; [reflexivity|].
+  rewrite seq_S, map_app, concat_app, IH. cbn [map concat plus]. rewrite app_nil_r.
+  replace (S m * n)%nat with (m * n + n)%nat by lia. now rewrite firstn_add.
+Qed.
+
+Lemma firstn_min_length {A} a (l : list A) : firstn (Nat.min a (length l)) l = firstn a l.
+Proof.
+  destruct (Nat.le_ge_cases a (length l)) as [H|H].
+  - now rewrite Nat.min_l.
+  - rewrite Nat.min_r by exact H. now rewrite !firstn_all2 by lia.
+Qed.
+
+Theorem omp_parts_concat (all : list Z) (chunk : Z) :
+  (1 <= chunk)%Z -> (Z.of_nat (length all) + chunk <= two32)%Z ->
+  concat (omp_parts all chunk) = all.
+Proof.
+  intros Hc Hw. unfold omp_parts, omp_ranges. rewrite map_map.
+  set (len := Z.of_nat (length all)) in *.
+  set (m := Z.to_nat (omp_number_parts len chunk)).
+  set (n := Z.to_nat chunk).
+  assert (Hm : (len <= Z.of_nat m * chunk)%Z /\ (Z.of_nat m * chunk < len + chunk)%Z).
+  { unfold m, omp_number_parts. rewrite Z2Nat.id by (apply Z.div_pos; lia).
+    pose proof (Z.div_mod (len + chunk - 1) chunk) as D.
+    pose proof (Z.mod_pos_bound (len + chunk - 1) chunk) as B. nia. }
+  rewrite (map_ext_in _ (fun k => firstn n (skipn (k * n) all))).
+  - rewrite concat_blocks. apply firstn_all2. unfold n. nia.
+  - intros k Hk. apply in_seq in Hk. cbn in Hk.
+    unfold omp_range, slice, u32. cbn [fst snd].
+    assert (Hk1 : (Z.of_nat k * chunk <= len - 1)%Z) by nia.
+    unfold two32 in *.
+    rewrite (Z.mod_small (Z.of_nat k * chunk)) by nia.
+    rewrite (Z.mod_small (Z.of_nat k * chunk + chunk)) by nia.
+    replace (Z.to_nat (Z.of_nat k * chunk)) with (k * n)%nat by (unfold n; nia).
+    rewrite <- (firstn_min_length n). rewrite skipn_length. f_equal.
+    unfold n, len in *. nia.
+Qed.
